@@ -470,7 +470,9 @@ func (e *Env) Monitor(st *Step) {
 	// ---- C09 take rate ----------------------------------------------------------------------------------------
 	if kind == "endblock" && ok {
 		e.monitorTakeRate(st)
+		e.monitorDecay(st)
 	}
+	e.monitorSettled(st, f, kind, ok)
 
 	// ---- C14 / C16 asset validity -----------------------------------------------------------------------------
 	for _, a := range post.Assets {
